@@ -45,6 +45,42 @@ def scan_sites():
     return sites
 
 
+def gen_history_cases(run, n):
+    """history-dependence probes: programs with many variables (the variable table grows past its initial capacity) and a
+    variable that only some events assign (on the right of && / || / ??), run on an event that assigns it followed by
+    events that do not: a runtime cleared in between must behave like a fresh one"""
+    rng = run.rng
+    from corevrl import lit, ev_field, f
+    cases = []
+    for _ in range(n):
+        k = rng.choice([1, 2, 5, 12, 14, 15, 16, 17, 20, 33, 40, 70])
+        names = ["hv%d" % i for i in range(k)]
+        stmts = [("assign", ("tvar", names[0], []), lit(ji(rng.randint(0, 9))))]
+        for i in range(1, k):
+            stmts.append(("assign", ("tvar", names[i], []), ("var", names[rng.randrange(i)]) if rng.random() < 0.7 else lit(ji(i))))
+        setm = ("op", "ne", ("assign", ("tvar", "marker", []), ev_field("i")), lit(None))
+        form = rng.choice(["and", "or", "err"])
+        if form == "and":
+            stmts.append(("op", "and", ("op", "eq", ev_field("go"), lit(True)), setm))
+        elif form == "or":
+            stmts.append(("op", "or", ("op", "ne", ev_field("go"), lit(True)), setm))
+        else:
+            stmts.append(("op", "err", ("call", "bool", False, [ev_field("go")]), setm))
+        stmts.append(("assign", ("text", "event", [f("marker")]), ("var", "marker")))
+        stmts.append(("var", names[-1]))
+        try:
+            cv.vrl_program(stmts)
+        except ValueError:
+            continue
+        first = {"and": True, "or": True, "err": "x"}[form]
+        later = {"and": False, "or": False, "err": True}[form]
+        mk = lambda go, i: jo([("go", js(go) if isinstance(go, str) else go), ("i", ji(i))])
+        evs = [mk(first, 5), mk(later, 6), mk(first, 7), mk(later, 8)]
+        cases.append({"kind": "random", "ast": stmts, "event": evs[0], "events": evs, "meta": jo([]),
+                      "vars": names[:3] + ["marker"], "meta_info": {"ctx": ["history:%s:%d-vars" % (form, k)]}})
+    return cases
+
+
 def main(run, args):
     import checklib
     quick = run.tier == "quick"
@@ -62,10 +98,10 @@ def main(run, args):
         if bad:
             print("VIOLATION property=%s replay=%s" % (ID, args.replay))
         return 1 if bad else 0
-    cases = cv.gen_random_cases(run, n)
+    cases = cv.gen_random_cases(run, n) + gen_history_cases(run, max(40, n // 10))
     dcases = []
     for c in cases:
-        evs = [c["event"]] + [cv.rand_event(run.rng) for _ in range(3)]
+        evs = c.get("events") or ([c["event"]] + [cv.rand_event(run.rng) for _ in range(3)])
         dcases.append({"src": cv.vrl_program(c["ast"]).encode().hex(), "events": evs, "meta": c["meta"], "threads": 6})
     douts = vlib.run_harness("determ", dcases)
     # correspondence of the sequential result on the first event with the model (prog family)
